@@ -570,13 +570,50 @@ func RunC17(t *testing.T, spec kernel.Spec) *kernel.Outcome {
 				return
 			}
 		}
-		mk := func(seed byte) (*world.RPNode, error) {
-			return world.BuildRP(context.Background(), w, world.RPOptions{Client: c.client, Secret: secret, Host: c.host(), Redirect: "https://" + c.host() + "/callback", Signer: signer,
-				Scopes: []string{oidc.ScopeOpenID, oidc.ScopeEmail}, PKCE: pkce, Cookies: true, KeySeed: seed, AuthStyle: style, SigAlgs: []string{string(w.SigAlg)}, MaxAge: c.maxAge})
+		// cookie keys: applications choose their own lengths (any length is a legal HMAC key; block keys of 16, 24 or 32
+		// bytes, or none), and the other application's keys may be unrelated to this one's or nearly the same - a
+		// shared secret with a per-application suffix, keys that differ in their last byte only
+		kc := tape.Sub("cfg-keys")
+		hashLen := []int{32, 32, 16, 40, 64, 72, 100}[kc.Int(7)]
+		blockLen := []int{16, 16, 24, 32, 0}[kc.Int(5)]
+		mkKey := func(seed byte, n int) []byte {
+			k := make([]byte, n)
+			for i := range k {
+				k[i] = seed + byte(i)*7
+			}
+			return k
 		}
-		c.other, err = mk(77)
+		hk, bk := mkKey(11, hashLen), mkKey(33, blockLen)
+		ohk, obk := mkKey(77, hashLen), mkKey(99, blockLen)
+		relation := kc.Pick("unrelated", "unrelated", "last-byte-differs", "same-up-to-byte-32", "same-up-to-byte-64", "suffix-appended")
+		switch relation {
+		case "last-byte-differs":
+			ohk = append([]byte(nil), hk...)
+			ohk[len(ohk)-1] ^= 0x55
+		case "same-up-to-byte-32", "same-up-to-byte-64":
+			cut := map[string]int{"same-up-to-byte-32": 32, "same-up-to-byte-64": 64}[relation]
+			if hashLen <= cut {
+				relation = "unrelated"
+				break
+			}
+			ohk = append([]byte(nil), hk...)
+			for i := cut; i < len(ohk); i++ {
+				ohk[i] ^= 0xA5
+			}
+		case "suffix-appended":
+			ohk = append(append([]byte(nil), hk...), []byte(":other-app")...)
+		}
+		if relation != "unrelated" && kc.Bool(2, 3) {
+			obk = bk // the encryption key is shared (or absent on both sides)
+		}
+		o.Probe("cookie-keys-of-the-other-application:" + relation)
+		mk := func(h, b []byte) (*world.RPNode, error) {
+			return world.BuildRP(context.Background(), w, world.RPOptions{Client: c.client, Secret: secret, Host: c.host(), Redirect: "https://" + c.host() + "/callback", Signer: signer,
+				Scopes: []string{oidc.ScopeOpenID, oidc.ScopeEmail}, PKCE: pkce, Cookies: true, HashKey: h, BlockKey: b, NoBlockKey: blockLen == 0, AuthStyle: style, SigAlgs: []string{string(w.SigAlg)}, MaxAge: c.maxAge})
+		}
+		c.other, err = mk(ohk, obk)
 		if err == nil {
-			c.rp, err = mk(11) // mounted last: this is the instance that serves web.sim
+			c.rp, err = mk(hk, bk) // mounted last: this is the instance that serves web.sim
 		}
 		if err != nil {
 			o.Infra = "rp: " + err.Error()
